@@ -1,6 +1,7 @@
 CONSTANTS
   AsIs_D10 = FALSE
   Mut_NilFailedEvent = TRUE
+  Mut_NegotiateLeaksLock = FALSE
 SPECIFICATION Spec
 INVARIANTS TypeOK NoPanic Outcome Reported
 PROPERTY Terminates
